@@ -27,3 +27,7 @@ def run(ctx, rep):
     driver.rule_expert_table(mod, rep, "C08", partition_filter=lambda kw: kw["fact"] != "FACTORED", classes={"equed:="}, rule="X-EQUED")
     from ..rules import more4
     more4.rule_setup_space(mod, rep)
+    from ..rules import more4 as _m4
+    _m4.rule_workfreeall_order(mod, rep)      # refactorizations keep the user-stack counters: the tail release must be exact over any call history
+    from ..rules import more6 as _m6
+    _m6.rule_pivot_column(mod, rep)
